@@ -83,6 +83,9 @@ C15(e) ==
                IF "f" \in DOMAIN e /\ e.f = f /\ (IsPinOp(e) \/ IsUnpinOp(e) \/ e.op \in {"upload", "delete"})
                THEN (IsPinOp(e) /\ PinSucceeded(e) => RootPinned(e.st, f))
                     /\ (IsUnpinOp(e) /\ (UnpinSucceeded(e) \/ ~RootPinned(prev, f)) => ~RootPinned(e.st, f))
+                    \* an unpin of a pinned reference whose chunks are all stored takes effect (it cannot be
+                    \* left "listed as pinned" after its last operation was an unpin)
+                    /\ (IsUnpinOp(e) /\ Chunks(defs, f) \subseteq Data(prev) => ~RootPinned(e.st, f))
                ELSE RootPinned(e.st, f) = RootPinned(prev, f))
   \o (IF IsPinOp(e) /\ PinSucceeded(e) /\ ~RootPinned(prev, e.f)
       THEN Clause("C15:pin_marks_every_chunk",
